@@ -4,6 +4,7 @@ import re
 from analysis.facts import strip_generics
 from analysis.guards import dominating_conditions, has_cond
 from analysis.pathinterp import enumerate_paths
+from . import C16 as _C16
 
 EXPLANATION = (
     "Decided: (1) the permission formula — the MIR expression of PermissionMask::is_injectable_by is "
@@ -33,6 +34,8 @@ def check(run):
         run.guard("C18.2.gate-provenance", cfg, lambda: rule_gate(run, F, cfg))
         run.guard("C18.4.escape-table", cfg, lambda: rule_escape(run, F, cfg))
         run.guard("C18.5.invocation", cfg, lambda: rule_invocation(run, F, cfg))
+        b = run.borrow("C16", only=r"inject_script", why="scriptlet exceptions are applied after all injections are collected")
+        run.guard("C18.via.C16.3.populate-before-prune", cfg, lambda: _C16.rule_order(b, F, cfg))
 
 
 # ------------------------------------------------------------------ tiny expression evaluator
